@@ -534,6 +534,100 @@ class Sym:
                 env["mem"].append((lv, val))
                 p.stores.append((bb, lv, val))
 
+    def _counting_loops(self):
+        """{header block: summary} for loops of the form `for item in ITER { if PRED(item) { acc += 1 } }` (nothing else live
+        after the loop, no stores, no calls): entered with acc == 0 such a loop is `acc = ITER.filter(PRED).count()`, and the
+        walker substitutes that call so that the loop and the adapter spelling give the same expression."""
+        if self.__dict__.get("_cl") is not None:
+            return self._cl
+        self._cl = {}
+        b = self.b
+        found = {}
+        for h, blk in enumerate(b.blocks):
+            t = blk["term"]
+            if t["t"] != "call" or blk.get("cleanup") or not (engine.callee_path(t) or "").endswith("::next"):
+                continue
+            fwd = b.reachable_from(h)
+            L = {x for x in fwd if b.dominates(h, x) and h in b.reachable_from(x) and (x == h or True)}
+            if not any(h in b.succs(x) for x in L):
+                continue
+            exits = {s_ for x in L for s_ in b.succs(x) if s_ not in L and b.blocks[s_]["term"]["t"] != "unreachable"}
+            if len(exits) != 1:
+                continue
+            X = next(iter(exits))
+            try:
+                ps = self.paths(entry=h, stop_at={X})
+            except PathLimit:
+                continue
+            stops = [q for q in ps if q.end == "stop"]
+            loops = [q for q in ps if q.end == "loop" and q.blocks[-1] == h]
+            if len(stops) != 1 or len(stops) + len(loops) != len([q for q in ps if q.end != "unreachable"]) or not loops:
+                continue
+            if any(q.stores or len(q.calls) != 1 or q.calls[0][0] != h for q in stops + loops):
+                continue
+            nx = stops[0].calls[0]
+            a0 = nx[2][0]
+            if not (a0[0] == "ref" and a0[2][0] == "lv"):
+                continue
+            it = a0[2][1]
+            nxe = ("call", h, nx[1], nx[2])
+            if len(stops[0].conds) != 1 or stops[0].conds[0][1] != ("discr", nxe):
+                continue
+            if any(not q.conds or q.conds[0][1] != ("discr", nxe) for q in loops):
+                continue
+            assigned = set()
+            for l_, ds in b.defs().items():
+                if any(d_[0] in L for d_ in ds):
+                    assigned.add(l_)
+            outside = b.reachable_from(X) - L
+            used = set()
+
+            def scan(o):
+                if isinstance(o, dict):
+                    if isinstance(o.get("l"), int):
+                        used.add(o["l"])
+                    for v_ in o.values():
+                        scan(v_)
+                elif isinstance(o, list):
+                    for v_ in o:
+                        scan(v_)
+            for x in outside:
+                scan(b.blocks[x]["stmts"])
+                scan(b.blocks[x]["term"])
+            live = (assigned & used) - {it}
+            if len(live) != 1:
+                continue
+            acc = next(iter(live))
+            item = ("field", ("variant", nxe, "Some"), 0)
+
+            def repl(e):
+                if e == item:
+                    return ("item",)
+                if isinstance(e, tuple):
+                    return tuple(repl(x) for x in e)
+                return e
+            inc, keep, okv = [], [], True
+            for q in loops:
+                v = q.env["locals"].get(acc, ("local", acc))
+                if v == ("local", acc):
+                    keep.append(q)
+                elif v[0] == "bin" and v[1].startswith("Add") and sorted([v[2], v[3]], key=repr) == sorted([("local", acc), ("const", 1)], key=repr):
+                    inc.append(q)
+                else:
+                    okv = False
+            if not okv or not inc:
+                continue
+            if len(inc) == 1 and len(keep) == 1 and len(inc[0].conds) == 2 and len(keep[0].conds) == 2 \
+                    and inc[0].conds[1][1] == keep[0].conds[1][1] and inc[0].conds[1][3] == [0]:
+                pred = (repl(inc[0].conds[1][1]), inc[0].conds[1][2] == "otherwise")
+            elif not keep and len(inc) == 1 and len(inc[0].conds) == 1:
+                pred = None
+            else:
+                continue
+            found[h] = {"it": it, "acc": acc, "exit": X, "pred": pred, "blocks": sorted(L)}
+        self._cl = found
+        return found
+
     def _walk(self, bb, env, p, onpath, out, max_paths, stop_at):
         blocks = self.b.blocks
         while True:
@@ -545,6 +639,20 @@ class Sym:
                 p.blocks.append(bb)
                 self._finish(p, env, "stop", out, max_paths)
                 return
+            if blocks[bb]["term"]["t"] == "call" and p.blocks:
+                cl = self._counting_loops().get(bb)
+                if cl is not None and env["locals"].get(cl["acc"]) == ("const", 0):
+                    itv = env["locals"].get(cl["it"], ("local", cl["it"]))
+                    src = itv
+                    if cl["pred"] is not None:
+                        fa = (itv, ("agg", "closure:<counting-loop@%d>" % bb, ()))
+                        p.calls.append((bb, "core::iter::Iterator::filter", fa, {"synthetic": True}))
+                        src = ("call", bb, "core::iter::Iterator::filter", fa)
+                    p.calls.append((bb, "core::iter::Iterator::count", (src,), {"synthetic": True}))
+                    env["locals"][cl["acc"]] = ("call", bb, "core::iter::Iterator::count", (src,))
+                    p.blocks.append(bb)
+                    bb = cl["exit"]
+                    continue
             onpath = onpath | {bb}
             p.blocks.append(bb)
             blk = blocks[bb]
